@@ -453,7 +453,7 @@ fn gen_document(rng: &mut Rng, hostile: bool) -> String {
             } else if hostile && rng.chance(1, 15) {
                 t.push_str("<node id=\"&foo;\"/>");
             } else if rng.chance(1, 3) {
-                t.push_str(&format!("<node id=\"{}\"><data key=\"c\">red</data></node>", esc(nm)));
+                t.push_str(&format!("<node id=\"{}\"><data key=\"c\">{}</data></node>", esc(nm), if rng.coin() { "red" } else { "5" }));
             } else {
                 t.push_str(&format!("<node id=\"{}\"/>", esc(nm)));
             }
@@ -475,6 +475,7 @@ fn gen_document(rng: &mut Rng, hostile: bool) -> String {
                 6 => "7.25".to_string(),
                 _ => "3".to_string(),
             };
+            let w = if !hostile && rng.chance(1, 6) { "".to_string() } else { w };
             let w = if hostile {
                 match rng.below(12) {
                     0 => "abc".to_string(),
@@ -490,14 +491,16 @@ fn gen_document(rng: &mut Rng, hostile: bool) -> String {
             } else {
                 w
             };
-            match rng.below(if hostile { 9 } else { 4 }) {
+            let other = *rng.pick(&["x", "7", "2.5", "1e3", "-4"]);
+            match rng.below(if hostile { 10 } else { 5 }) {
                 0 => t.push_str(&format!("<edge source=\"{}\" target=\"{}\"/>", esc(u), esc(v))),
+                4 => t.push_str(&format!("<edge source=\"{}\" target=\"{}\"><data key=\"other\">{}</data></edge>", esc(u), esc(v), other)),
                 1 | 2 => t.push_str(&format!("<edge source=\"{}\" target=\"{}\"><data key=\"{}\">{}</data></edge>", esc(u), esc(v), wkey, w)),
-                3 => t.push_str(&format!("<edge id=\"e\" source=\"{}\" target=\"{}\"><data key=\"other\">x</data><data key=\"{}\">{}</data></edge>", esc(u), esc(v), wkey, w)),
-                4 => t.push_str(&format!("<edge source=\"{}\"/>", esc(u))),
-                5 => t.push_str(&format!("<edge source=\"{}\" target=\"{}\"></edge><data key=\"{}\">{}</data>", esc(u), esc(v), wkey, w)),
-                6 => t.push_str(&format!("<edge source=\"{}\" target=\"{}\"><data key=\"{}\"/></edge>", esc(u), esc(v), wkey)),
-                7 => t.push_str(&format!("<edge source=\"{}\" target=\"{}\"><data key=\"{}\"><node id=\"inner\"/></data></edge>", esc(u), esc(v), wkey)),
+                3 => t.push_str(&format!("<edge id=\"e\" source=\"{}\" target=\"{}\"><data key=\"other\">{}</data><data key=\"{}\">{}</data></edge>", esc(u), esc(v), other, wkey, w)),
+                5 => t.push_str(&format!("<edge source=\"{}\"/>", esc(u))),
+                6 => t.push_str(&format!("<edge source=\"{}\" target=\"{}\"></edge><data key=\"{}\">{}</data>", esc(u), esc(v), wkey, w)),
+                7 => t.push_str(&format!("<edge source=\"{}\" target=\"{}\"><data key=\"{}\"/></edge>", esc(u), esc(v), wkey)),
+                8 => t.push_str(&format!("<edge source=\"{}\" target=\"{}\"><data key=\"{}\"><node id=\"inner\"/></data></edge>", esc(u), esc(v), wkey)),
                 _ => t.push_str(&format!("<data key=\"{}\">{}</data><edge source=\"{}\" target=\"{}\"/>", wkey, w, esc(u), esc(v))),
             }
         }
@@ -532,6 +535,8 @@ const FRAGMENTS: &[&str] = &[
     "<graphml><graph edgedefault=\"directed\"><node id=\"a\"/><node id=\"b\"/><edge source=\"a\" target=\"b\"><data key=\"weight\"/><node id=\"c\"/></edge></graph></graphml>",
     "<graphml><graph edgedefault=\"undirected\"><node id=\"a\"/><node id=\"b\"/><edge source=\"a\" target=\"b\"><data key=\"weight\"/></edge><edge source=\"b\" target=\"a\"/></graph></graphml>",
     "<graphml><graph edgedefault=\"directed\"><node id=\"a\"/></graph><graph edgedefault=\"undirected\"><node id=\"b\"/></graph></graphml>",
+    "<graphml><graph edgedefault=\"directed\"><node id=\"a\"/><node id=\"b\"/><node id=\"c\"/><edge source=\"a\" target=\"b\"><data key=\"weight\"></data></edge><edge source=\"b\" target=\"c\"><data key=\"other\">3</data></edge></graph></graphml>",
+    "<graphml><graph edgedefault=\"directed\"><node id=\"a\"><data key=\"weight\"></data></node><node id=\"b\"/><edge source=\"a\" target=\"b\"><data key=\"label\">9</data></edge></graph></graphml>",
     "<graphml><graph><node id=\"a\"/></graph></graphml>",
     "<graphml><graph edgedefault=\"both\"><node id=\"a\"/></graph></graphml>",
     "<graphml><graph edgedefault=\"directed\"><edge source=\"a\" target=\"b\"/></graph></graphml>",
